@@ -167,6 +167,13 @@ def check(ctx):
             ctx.require(R4, any(x.bb == nx.bb for x in dsl.calls) and not foreign, where(start, u),
                         "the only test between accepting a connection and spawning its thread is on the accepted item itself (also tested: %s)" % sorted({x.name for x in foreign}),
                         [START, "connection-dropped-by-policy"])
+    # callbacks registered on the acceptor run INSIDE every handshake, i.e. in the connection threads, and OpenSSL calls them through
+    # `extern "C"` frames that cannot unwind: a panic there aborts the process whatever the panic strategy. They are enumerated like the
+    # per-connection closures.
+    for c in start.calls:
+        if c.bb in start.live_blocks() and "callback" in (c.name or "").rsplit("::", 1)[-1] and c.gbodies:
+            for g in c.gbodies:
+                spawn_closures.append((c, g))
     ctx.floor(R1, "per-connection closures passed to thread::spawn", len(spawn_closures), 2)
     # R4: accept only within closures
     for c in start.calls_to("*SslAcceptor::accept"):
